@@ -42,10 +42,36 @@ _LANG = {}
 
 
 def languages():
+    """The keyword table: etc/gherkin/gherkin-languages.json of the repository under test (the upstream cucumber
+    data that behave/i18n.py is generated from), in i18n's key spelling.  Falls back to behave.i18n.languages if
+    the file is missing (then a truncated alias list in i18n.py cannot be noticed; table_source() tells)."""
     if not _LANG:
-        from behave import i18n
-        _LANG.update(i18n.languages)
+        import json
+        import os
+        from vlib.core import repo_dir
+        path = os.path.join(repo_dir(), "etc", "gherkin", "gherkin-languages.json")
+        try:
+            with open(path, encoding="utf-8") as f:
+                data = json.load(f)
+            for lang, tab in data.items():
+                tab = dict(tab)
+                if "scenarioOutline" in tab:
+                    tab["scenario_outline"] = tab.pop("scenarioOutline")
+                _LANG[lang] = tab
+            _SRC.append(path)
+        except (IOError, OSError, ValueError):
+            from behave import i18n
+            _LANG.update(i18n.languages)
+            _SRC.append("behave.i18n")
     return _LANG
+
+
+_SRC = []
+
+
+def table_source():
+    languages()
+    return _SRC[0]
 
 
 def default_alias(lang, kind):
